@@ -55,6 +55,19 @@ class Proposal:
     def sample(self, n=1, **k): return self.xi
 
 
+def _started(c, s, x):
+    """harness objects are built without the constructor: give them the attributes that say where the chain STARTED (distinct from where it is now),
+    so that code reading them is analysed instead of failing on a missing attribute"""
+    try:
+        start = c.avec('x_start') if type(x).__name__ == 'AVec' else c.vec('x_start', len(x))
+    except Exception:
+        start = None
+    for nm in ('x0', 'initial_point'):
+        try: object.__setattr__(s, nm, start)
+        except Exception: pass
+    return s
+
+
 def _accept_rule(c, u, rho):
     return c.log(u) <= c.minimum(0.0, rho)
 
@@ -73,12 +86,14 @@ def mh(c, iface, nonfinite=None):
     if iface == 'exp':
         from cuqi.experimental.mcmc import MH
         s = MH.__new__(MH); s._target = tg; s._proposal = Proposal(xi); s.current_point = x
+        _started(c, s, x)
         s.scale = scale; s.current_target_logd = cache
         acc = s.step()
         newx, newlogd = s.current_point, s.current_target_logd
     else:
         from cuqi.sampler import MH
         s = MH.__new__(MH); s._target = tg; s._proposal = Proposal(xi); s.scale = scale
+        _started(c, s, x)
         newx, newlogd, acc = s.single_update(x, cache)
     c.holds('one_target_evaluation_at_the_proposal', len(tg.calls) == 1)
     c.eq('proposal_is_x_plus_scale_xi', tg.calls[0], xs)
@@ -116,11 +131,13 @@ def pcn_kernel(c, iface, nonfinite=None):
     if iface == 'exp':
         from cuqi.experimental.mcmc import PCN
         s = PCN.__new__(PCN); s._target = types.SimpleNamespace(prior=prior, likelihood=like, dim=tg.dim)
+        _started(c, s, x)
         s.current_point = x; s.scale = scale; s.current_likelihood_logd = cache
         acc = s.step(); newx, newl = s.current_point, s.current_likelihood_logd
     else:
         from cuqi.sampler import pCN
         s = pCN.__new__(pCN); s._target = (like, prior); s.scale = scale; s._loglikelihood = lambda v: like.logd(v)
+        _started(c, s, x)
         newx, newl, acc = s.single_update(x, cache)
     xs = tg.calls[0]
     c.holds('one_likelihood_evaluation', len(tg.calls) == 1)
@@ -148,11 +165,13 @@ def pcn_reversible(c, iface, n=1, prior_kind='Normal'):
         if iface == 'exp':
             from cuqi.experimental.mcmc import PCN
             s = PCN.__new__(PCN); s._target = types.SimpleNamespace(prior=prior, likelihood=like, dim=n)
+            _started(c, s, x)
             s.current_point = xcur; s.scale = scale; s.current_likelihood_logd = 0.0
             s.step()
         else:
             from cuqi.sampler import pCN
             s = pCN.__new__(pCN); s._target = (like, prior); s.scale = scale; s._loglikelihood = lambda v: like.logd(v)
+            _started(c, s, x)
             s.single_update(xcur, 0.0)
         return rec[0]
     xs = propose(x, z)                       # x' = mu(x) + B z
@@ -204,12 +223,14 @@ def mala(c, iface, nonfinite=None):
         u = c.boundary_uniform('u', _spec_rho)
         from cuqi.experimental.mcmc import MALA
         s = MALA.__new__(MALA); s._target = tg; s.current_point = x; s.scale = eps
+        _started(c, s, x)
         s.current_target_logd = cache; s.current_target_grad = gcache
         acc = s.step(); newx, newl, newg = s.current_point, s.current_target_logd, s.current_target_grad
     else:
         u = c.boundary_uniform('u', _spec_rho)
         from cuqi.sampler import MALA
         s = MALA.__new__(MALA); s._target = tg; s.scale = eps; s.rng = None
+        _started(c, s, x)
         if not c.sym: s._dim = len(x)
         newx, newl, newg, acc = s.single_update(x, cache, gcache)
     xs = tg.calls[0]
@@ -249,12 +270,14 @@ def cwmh(c, iface, n=2, nonfinite_at=None, default_proposal=False):
     if iface == 'exp':
         from cuqi.experimental.mcmc import CWMH
         s = CWMH.__new__(CWMH); s._target = tg; s._proposal = prop; s._is_initialized = True
+        s.initial_point = c.vec('x_start', n)                    # where the chain started: not where it is now
         if prop is None: _ = s.proposal
         s.current_point = x; s._scale = scale; s.current_target_logd = cache
         acc = s.step(); newx, newl = s.current_point, s.current_target_logd
     else:
         from cuqi.sampler import CWMH
         s = CWMH.__new__(CWMH); s._target = tg; s.scale = scale
+        s.x0 = c.vec('x_start', n)                               # where the chain started: not where it is now
         if prop is None:
             s._proposal = cuqi.distribution.Normal(mean=lambda location: location, std=lambda scale: scale, geometry=n)
         else: s._proposal = prop
